@@ -167,18 +167,23 @@ def check_gaussian(g, ctype, kind):
                 f'min variance {cov.min():.3e}', kind=kind)
 
 
-def check_bingham(b, max_conc, kind):
+def check_bingham(b, max_conc, kind, eps=1e-8):
     lam = np.asarray(b.covariance_eigenvalues, dtype=np.float64)
     V = np.asarray(b.covariance_eigenvectors)
+    # eigenvalues clipped at -max_concentration coincide; the trainer separates
+    # coinciding eigenvalues by its ``eignevalue_eps`` each (documented:
+    # "not optimal, but an error of 1e-8"), which lifts every larger
+    # eigenvalue - the maximum too - by at most (D-1)*eps
+    tol = max(1e-6, 2 * lam.shape[-1] * float(eps))
     require(np.all(np.isfinite(lam)) and np.all(np.isfinite(V)),
             'bingham-finite', 'NaN/Inf', kind=kind)
     mx = lam.max(axis=-1)
-    require(np.all(np.abs(mx) <= 1e-6), 'bingham-max-eigenvalue-zero',
+    require(np.all(np.abs(mx) <= tol), 'bingham-max-eigenvalue-zero',
             f'max eigenvalue in [{mx.min()}, {mx.max()}]', kind=kind)
-    require(np.all(lam <= 1e-6), 'bingham-eigenvalues-nonpositive',
+    require(np.all(lam <= tol), 'bingham-eigenvalues-nonpositive',
             f'{lam.max()}', kind=kind)
     if np.isfinite(max_conc):
-        require(np.all(lam >= -max_conc - 1e-6), 'bingham-concentration-bound',
+        require(np.all(lam >= -max_conc - tol), 'bingham-concentration-bound',
                 f'min {lam.min()} < -{max_conc}', kind=kind)
     D = V.shape[-1]
     gram = np.einsum('...dk,...dl->...kl', V.conj(), V)
@@ -200,7 +205,8 @@ def check_model(model, case, first=False):
                      single, kind)
     if kind == 'cbmm':
         check_bingham(model.complex_bingham,
-                      case.trainer_kwargs.get('max_concentration', np.inf), kind)
+                      case.trainer_kwargs.get('max_concentration', np.inf), kind,
+                      eps=case.trainer_kwargs.get('eigenvalue_eps', 1e-8))
     if kind in ('gmm', 'gcacgmm'):
         check_gaussian(model.gaussian, o.get(
             'covariance_type', 'full' if kind == 'gmm' else 'spherical'), kind)
